@@ -10,7 +10,10 @@ THEOREMS = ["C19_union_sound", "C19_union_sound_any_fuel", "C19_union_exact_vs_j
             "C19_get_sound", "C19_get_sound_nonneg", "C19_kget_sound", "C19_get_negidx_optional_refuted",
             "C19_superset_sound", "C19_superset_exact_any_refuted",
             "C19_insert_sound", "C19_negidx_insert_refuted", "C19_insert_coerce_required_refuted",
-            "C19_insert_optional_hole_refuted", "C19_domains_nonvacuous"]
+            "C19_insert_optional_hole_refuted",
+            "C19_remove_sound_fields_partial", "C19_remove_shift_refuted", "C19_remove_inside_unknown_refuted",
+            "C19_remove_negidx_panic_refuted", "C19_merge_union_sound", "C19_merge_overwrite_refuted",
+            "C19_domains_nonvacuous"]
 IMPORTS = ("From Coq Require Import List ZArith String.\n"
            "From VRL Require Import Base.Bytes Base.Value Base.Lit Model.ValueCrud Model.Kind Model.KindCrud Model.KindDomains Corr.C19.\n"
            "Local Open Scope string_scope.")
